@@ -1,7 +1,91 @@
 package c26
 
+import (
+	"encoding/json"
+	"math"
+	"strconv"
+	"strings"
+)
+
+// Known finding of C26 (see /verif/notes/C26.md and notes/C26.findings.json).
+//
+// kfJSONBigFloat: JSON numbers are compared through types.compareNumbers; its int64-vs-float64
+// and uint64-vs-float64 cases convert the float with int64(f) / uint64(f), which is not defined
+// for |f| >= 2^63 (2^64), so an integer compares *greater* than 1.8446744073709552e19 or
+// +Inf-like values ("0 < 18446744073709552000" but "-9223372036854775807 > 18446744073709552000"):
+// Compare on JSON is not transitive on triples that mix integers and such floats.
+const kfJSONBigFloat = "C26-json-int-vs-big-float"
+
+// jsonBigFloatRegion is the input region of kfJSONBigFloat, decided on the JSON texts alone:
+// some document holds a number whose float64 value is >= 2^63 in magnitude and that is not an
+// integer fitting int64/uint64, and some document holds an integer-looking number (no '.', no
+// exponent). Over-approximation: which integer texts the engine keeps as Go integers is its
+// business.
+func jsonBigFloatRegion(texts []string) bool {
+	bigFloat, integer := false, false
+	for _, t := range texts {
+		dec := json.NewDecoder(strings.NewReader(t))
+		dec.UseNumber()
+		for {
+			tok, err := dec.Token()
+			if err != nil {
+				break
+			}
+			n, ok := tok.(json.Number)
+			if !ok {
+				continue
+			}
+			s := n.String()
+			looksInt := !strings.ContainsAny(s, ".eE")
+			if looksInt {
+				if _, err := strconv.ParseInt(s, 10, 64); err == nil {
+					integer = true
+					continue
+				}
+				if _, err := strconv.ParseUint(s, 10, 64); err == nil {
+					integer = true
+					continue
+				}
+			}
+			f, _ := strconv.ParseFloat(s, 64) // +-Inf for out-of-range text such as 1e400
+			if math.Abs(f) >= 9223372036854775808.0 {
+				bigFloat = true
+			}
+		}
+	}
+	return bigFloat && integer
+}
+
+// lawSignature names the known finding that explains a violation of an order law on values of
+// the type whose raw forms are raws ("" = none): only the JSON family, only the transitivity
+// law (antisymmetry holds by construction in compareNumbers, reflexivity is unaffected), only
+// inside the region.
+func lawSignature(tc typeCase, law string, raws []any) string {
+	if tc.family != "json" || law != "transitive" {
+		return ""
+	}
+	if jsonBigFloatRegion(rawTexts(raws)) {
+		return kfJSONBigFloat
+	}
+	return ""
+}
+
+func rawTexts(raws []any) []string {
+	var out []string
+	for _, r := range raws {
+		if s, ok := r.(string); ok {
+			out = append(out, s)
+		}
+	}
+	return out
+}
+
 // conversionSignature names the known finding whose defect explains a violation of the
 // conversion clause ("" = none).
 func conversionSignature(tc typeCase, r1, r2, v1, v2 any, cr, cv int) string {
 	return ""
 }
+
+// jsonWitness: three JSON numbers on which Compare is not transitive on the unchanged tree
+// (0 < 18446744073709552000, 18446744073709552000 < -9223372036854775807, but 0 > -9223372036854775807).
+var jsonWitness = []string{"0", "18446744073709552000", "-9223372036854775807"}
